@@ -342,6 +342,12 @@ public:
 			m->setName(t[1]);
 			for (size_t i = 4; i < t.size(); i++) {
 				if (t[i] == "noconf") m->noConflicts(); else if (t[i] == "zero") m->initZero();
+				else if (t[i].rfind("fill=", 0) == 0) {      // fill=<depth*width bits, MSB first, 0/1/X>: power-on contents (word 0 = least significant bits)
+					std::string bits = t[i].substr(5);
+					sim::DefaultBitVectorState st; st.resize(bits.size());
+					for (size_t k = 0; k < bits.size(); k++) { char ch = bits[bits.size() - 1 - k]; st.set(sim::DefaultConfig::DEFINED, k, ch == '0' || ch == '1'); st.set(sim::DefaultConfig::VALUE, k, ch == '1'); }
+					m->fillPowerOnState(st);
+				}
 				else if (t[i] == "exact") m->undefinedReadAddrBehavior(hlim::Node_Memory::UndefinedReadAddrBehavior::EXACT);   // merge all candidate words of a partially undefined read address
 			}
 			mems[t[1]] = m;
